@@ -410,6 +410,15 @@ def _check_state(g, mc, P):
 
 
 # ----------------------------------------------------------------------------
+def _law(ctx, fn, case, sig_prefix):
+    """guard one law family of one map; an agreeing family is one validated reference behaviour"""
+    ok = ctx.guard(fn, case=case, sig_prefix=sig_prefix)
+    if ok:
+        ctx.traces += 1
+    return ok
+
+
+# ----------------------------------------------------------------------------
 # map layer: laws (one map, built from the reversed canonical order)
 def _interior(x0, x1):
     return sorted({x for x in (x0 + 1, (x0 + x1) // 2, x1 - 1) if x0 < x < x1})
@@ -445,7 +454,7 @@ def run_laws(ctx, mc: MapCase):
         box["g"] = build(mc.clsname, "auto", rows)
         ctx.transitions += 1
         _check_state(box["g"], mc, P)
-    if not ctx.guard(construct, case=case, sig_prefix=P + ":"):
+    if not _law(ctx, construct, case, P + ":"):
         return False
     g = box["g"]
     own, inside, outside, absentq = query_sets(model, mc.absent)
@@ -485,7 +494,7 @@ def run_laws(ctx, mc: MapCase):
                     require(yb >= ya - 1e-12 * max(1.0, abs(ya)), P + ".interp_genpos:order",
                             f"congruent map, chromosome {c}: position {xa} -> {ya!r} but {xb} -> {yb!r}")
             ctx.flag("order-preserving-checked")
-    allok &= ctx.guard(interp_kinds, case=case, sig_prefix=P + ".interp_genpos:")
+    allok &= _law(ctx, interp_kinds, case, P + ".interp_genpos:")
 
     def query_order():
         res = box["res_all"]
@@ -502,7 +511,7 @@ def run_laws(ctx, mc: MapCase):
             ctx.transitions += 1
             require(close(r1, res[[i]]), P + ".interp_genpos:query-order", f"single-marker query {qall[i]} -> {r1}, in the full query {res[i]!r}")
     if "res_all" in box:
-        allok &= ctx.guard(query_order, case=case, sig_prefix=P + ".interp_genpos:")
+        allok &= _law(ctx, query_order, case, P + ".interp_genpos:")
 
     if congruent:
         allok &= _laws_gdist(ctx, mc, g, case, own, inside, outside)
@@ -511,7 +520,7 @@ def run_laws(ctx, mc: MapCase):
 
     def final_state():
         _check_state(g, mc, P)
-    allok &= ctx.guard(final_state, case=case, sig_prefix=P + ":after-queries:")
+    allok &= _law(ctx, final_state, case, P + ":after-queries:")
     if "res_all" in box:
         ctx.outcome(("map", box["res_all"]))
     return allok
@@ -573,7 +582,7 @@ def _laws_gdist(ctx, mc, g, case, own, inside, outside):
             require(close(W, ref[a:b, c:d]), P + ".gdist2g:window", f"rst,rsp,cst,csp={a},{b},{c},{d}: {W.tolist()} is not the block of the full matrix")
         ctx.count("gdist2g-windows", len(combos))
         ctx.outcome(("d2", D))
-    ok &= ctx.guard(g2, case=case, sig_prefix=P + ".gdist2g:")
+    ok &= _law(ctx, g2, case, P + ".gdist2g:")
 
     def g1():
         d1 = g.gdist1g(mc.c_chr, mc.c_gen)
@@ -606,7 +615,7 @@ def _laws_gdist(ctx, mc, g, case, own, inside, outside):
                         P + ".gdist1g:window", f"ast,asp={a},{b}: {w.tolist()} vs slice of the full result {e.tolist()}")
         ctx.count("gdist1g-windows", nw)
         ctx.outcome(("d1", d1))
-    ok &= ctx.guard(g1, case=case, sig_prefix=P + ".gdist1g:")
+    ok &= _law(ctx, g1, case, P + ".gdist1g:")
 
     qs = sorted(own + inside + outside)
     qc, qx = _q(qs)
@@ -660,7 +669,7 @@ def _laws_gdist(ctx, mc, g, case, own, inside, outside):
             require(close(p1, [R.mapfn_nan(name, v) for v in box_e1.tolist()]), FP + ".rprob1p:value", lambda: f"{p1.tolist()}")
             require(close(p2, [[R.mapfn_nan(name, v) for v in row] for row in box_e2.tolist()]), FP + ".rprob2p:value", lambda: f"{p2.tolist()}")
             ctx.flag(f"rprob:{name}")
-    ok &= ctx.guard(gp, case=case, sig_prefix=P + ".gdist_p:")
+    ok &= _law(ctx, gp, case, P + ".gdist_p:")
     return ok
 
 
@@ -707,7 +716,7 @@ def _laws_interp_gmap(ctx, mc, g, case, own, inside, outside, absentq):
             want = sorted(zip(*ecols), key=key)
             same_rows = len(got) == len(want) and all(key(a) == key(b) and close(a[2], b[2]) for a, b in zip(got, want))
             require(same_rows, P + ".interp_gmap:fields", lambda: f"rows of the interpolated map {got} are not the queried markers with their interpolated positions {want}")
-        f_ok = ctx.guard(fields, case=case, sig_prefix=P + ".interp_gmap:")
+        f_ok = _law(ctx, fields, case, P + ".interp_gmap:")
         ok &= f_ok
 
         def derived(pairs=pairs):
@@ -727,7 +736,7 @@ def _laws_interp_gmap(ctx, mc, g, case, own, inside, outside, absentq):
                     lambda: f"the interpolated map does not return its stored positions at its own markers: {r2.tolist()} vs {og.tolist()}")
             ctx.flag("interp_gmap:derived-map-law")
         if f_ok and _valid_as_map(pairs, box["exp"].tolist()):
-            ok &= ctx.guard(derived, case=case, sig_prefix=P + ".interp_gmap:derived-map:")
+            ok &= _law(ctx, derived, case, P + ".interp_gmap:derived-map:")
         ctx.flag("interp_gmap:" + label)
     return ok
 
@@ -813,7 +822,7 @@ def _laws_xoprob(ctx, mc, g, case, own, inside, outside, absentq):
                                                                  f"(markers {list(zip(cl, xl))}, positions {gl})")
                 ctx.outcome(("xo", name, xo))
                 ctx.flag(f"xoprob:{gname}:{name}")
-            ok &= ctx.guard(one, case=case, sig_prefix=GP + ":")
+            ok &= _law(ctx, one, case, GP + ":")
     return ok
 
 
@@ -850,10 +859,10 @@ def run_map_group(ctx, clsname, mode, specs, seed):
             ctx.flag("midpoints")
         if any(a[1] == b[1] for pts in mc.model.by_chr.values() for a, b in zip(pts, pts[1:])):
             ctx.flag("tied-genetic-positions")
-        if mode == "auto":
-            allok &= bool(run_laws(ctx, mc))
         if allok:
-            ctx.traces += 1
+            ctx.traces += 1                      # every row order of this map agreed with the row-list model
+        if mode == "auto":
+            run_laws(ctx, mc)                    # each agreeing law family counts one more trace
         if spec[0][0][0] == 0 and (spec[1] is None or spec[1][1][-1] == 3) and spec[0][1][-1] == 2:
             ctx.sample(dict(mc.case(list(range(n))[::-1]), interp_at=list(zip(mc.q_chr.tolist(), mc.q_phy.tolist())), expected=mc.q_exp.tolist()))
 
